@@ -213,6 +213,13 @@ func (h *Hist) OpReport() {
 	if v < 2 {
 		v = 2
 	}
+	if c.Chance("sentinel-reading", 1, 16) {
+		// A genuinely signed report whose reading is one of the two reserved
+		// values (0 = empty slot, 1 = banned slot): refused without a trace,
+		// whatever happens later (restart, rotation).
+		v = uint64(c.Int("sentinel", 2))
+		h.W.Probe("hist.sentinel-reading")
+	}
 	var b []byte
 	if len(h.Sent) > 0 && c.Chance("replay", 1, 6) {
 		b = h.Sent[c.Int("which", len(h.Sent))]
